@@ -101,6 +101,39 @@ func genName(r *rng.R) string {
 	}
 }
 
+// size boundaries of the byte-level contract: the buffer sizes used in core/log/metric (bufio default 4096, the
+// readers' 8192) and 64 KiB, each -1 / exact / +1, plus tiny lengths
+var sizeEdges = []int{0, 1, 2, 3, 4095, 4096, 4097, 8191, 8192, 8193, 65535, 65536, 65537}
+
+// genSizedName: a resource name of exactly n bytes (no '|', no line break), content varied so that a shifted or
+// truncated copy is not equal
+func genSizedName(r *rng.R, n int) string {
+	b := make([]byte, n)
+	k := r.Intn(26)
+	for i := range b {
+		b[i] = byte('a' + (i+k)%26)
+		if i%97 == 96 {
+			b[i] = byte('0' + (i/97)%10)
+		}
+	}
+	return string(b)
+}
+
+// genSizeBoundaryName: a name whose length, or whose whole log line (timestamp, time string, counters, LF included:
+// 60 to 190 bytes around the name), lands on / next to a buffer size
+func genSizeBoundaryName(r *rng.R) string {
+	e := sizeEdges[r.Intn(len(sizeEdges))]
+	if e >= 4095 && r.Chance(1, 2) {
+		e -= 40 + r.Intn(160) // the line, not the name, is at the edge
+	}
+	return genSizedName(r, e)
+}
+
+func genBigU64(r *rng.R) uint64 {
+	return uint64(r.PickI(0, 1)) + []uint64{999999999999999999, 1000000000000000000, 9999999999999999998, 9223372036854775807, 9223372036854775808,
+		10000000000000000000, 18446744073709551614}[r.Intn(7)]
+}
+
 func genU64(r *rng.R) uint64 {
 	switch r.Intn(12) {
 	case 0:
@@ -127,6 +160,7 @@ func genItem(r *rng.R, names []string) itemT {
 
 func gen(r *rng.R, id int, cutMode string) caseT {
 	c := caseT{ID: id, CutMode: cutMode}
+	sized := id >= sizeBase
 	c.Tz = int(tzChoices[r.Intn(len(tzChoices))])
 	c.WithPid = r.Chance(1, 4)
 	day := int64(19675 + r.Intn(3))
@@ -146,7 +180,31 @@ func gen(r *rng.R, id int, cutMode string) caseT {
 	}
 	nw := 8 + r.Intn(14)
 	maxItems := 3
+	minItems := 1
+	bigCounters := false
 	switch cls := r.Intn(10); {
+	case sized:
+		// size boundaries: name / line lengths at the buffer sizes, 19-20 digit counters, many items in one second,
+		// one item per file; file size limits at the same edges
+		c.Class = "sizes"
+		c.MaxSize = uint64(r.PickI(1, 4096, 8192, 8193, 65536, 52428800, 52428800))
+		c.MaxFiles = uint32(r.PickI(2, 3, 6, 12))
+		nw = 4 + r.Intn(5)
+		bigCounters = r.Chance(1, 2)
+		names = names[:1]
+		switch r.Intn(4) {
+		case 0: // many short items in one batch
+			minItems, maxItems = 40, 200
+			c.MaxSize = uint64(r.PickI(4096, 8192, 65536, 52428800))
+		case 1: // one item per file, long or tiny names
+			c.MaxSize = 1
+			names = append(names, genSizeBoundaryName(r), genSizedName(r, r.Intn(4)))
+		default:
+			names = append(names, genSizeBoundaryName(r))
+			if r.Chance(1, 3) {
+				names = append(names, genSizeBoundaryName(r))
+			}
+		}
 	case cutMode != "none":
 		c.Class = "cut"
 		c.MaxSize = uint64(r.PickI(400, 700, 1000, 100000))
@@ -254,13 +312,20 @@ func gen(r *rng.R, id int, cutMode string) caseT {
 		if ts < 0 {
 			ts = 0
 		}
-		n := 1 + r.Intn(maxItems)
+		n := minItems + r.Intn(maxItems-minItems+1)
+		if minItems == 1 {
+			n = 1 + r.Intn(maxItems)
+		}
 		if r.Chance(1, 25) {
 			n = 0
 		}
 		var items []itemT
 		for i := 0; i < n; i++ {
-			items = append(items, genItem(r, names))
+			it := genItem(r, names)
+			if bigCounters && r.Chance(1, 2) {
+				it.Pass, it.Rt, it.Occ = genBigU64(r), genBigU64(r), genBigU64(r)
+			}
+			items = append(items, it)
 		}
 		c.Ops = append(c.Ops, opT{Kind: "write", Ts: uint64(ts), Items: items})
 		if ts/1000 >= cur/1000 && n > 0 && ts > 0 {
@@ -517,6 +582,7 @@ func listDir(dir, bn string, withContent bool) ([]fileInfo, error) {
 // ---------------------------------------------------------------------------------- main
 
 const cutBase = 1000000
+const sizeBase = 2000000 // size-boundary cases (class "sizes")
 
 func main() {
 	a := cli.Parse()
@@ -525,11 +591,13 @@ func main() {
 	clk.Install()
 	root := rng.New(a.Seed)
 	rep := emit.NewReport("C17", a.Seed, a.Tier)
-	rep.Rule = "a case = one writer + ONE searcher on a fresh directory, pinned zone: 5-21 Write calls (same second / next second / gaps / local midnight / day jumps / older seconds / ts 0 / empty batches; 0-3 items with unicode, long, blank, empty, numeric-looking names and boundary field values) interleaved with 3-25 queries (both kinds, begin times around written seconds, mostly non-decreasing so the cached position is used); classes manyrolls (>= 11 files in a day), tiny-retention (MaxFileAmount 1-3), rolls, single-file, cut (truncation sweep of last data + idx file, fresh searcher per cut, 4 queries). Non-trivial = at least one file roll AND at least one query returning items AND at least one query answered from the cached position (normal cases) / at least one cut strictly inside a line or an index entry (cut cases); distinct by full input."
+	rep.Rule = "a case = one writer + ONE searcher on a fresh directory, pinned zone: 5-21 Write calls (same second / next second / gaps / local midnight / day jumps / older seconds / ts 0 / empty batches; 0-3 items with unicode, long, blank, empty, numeric-looking names and boundary field values) interleaved with 3-25 queries (both kinds, begin times around written seconds, mostly non-decreasing so the cached position is used); classes manyrolls (>= 11 files in a day), tiny-retention (MaxFileAmount 1-3), rolls, single-file, sizes (ids 2000000+: resource-name and whole-line lengths at / next to the buffer sizes 4096, 8192, 65536 and tiny lengths, 19-20 digit counters, 40-200 items in one batch, one item per file), cut (truncation sweep of last data + idx file, fresh searcher per cut, 4 queries). Non-trivial = at least one file roll AND at least one query returning items AND at least one query answered from the cached position (normal cases) / at least one cut strictly inside a line or an index entry (cut cases); distinct by full input."
 	nCorr := a.Pick(a.N, 52, 1500)
 	nMon := a.Pick(a.Mon, 1000, 25000)
 	nCutCorr := a.Pick(a.N/12, 4, 20)
 	nCutMon := a.Pick(a.Mon/20, 50, 400)
+	nSizeMon := a.Pick(a.Mon/25, 40, 600)
+	nSizeCorr := a.Pick(a.N/40, 0, 6)
 	cutMode := "sample"
 	if a.Tier == "thorough" {
 		cutMode = "all"
@@ -539,6 +607,8 @@ func main() {
 		nCorr, nCutCorr = 0, 0
 		nMon *= 5
 		nCutMon *= 5
+		nSizeMon *= 5
+		nSizeCorr = 0
 	}
 	var sh *emit.Shards
 	if a.Only < 0 && !a.Search {
@@ -549,12 +619,20 @@ func main() {
 		}
 	}
 	workDir := filepath.Join(a.Out, "work")
+	// the scratch directory of the writer / searcher under test: memory-backed when the platform has one (the
+	// quick tier creates and removes some 10^4 small files; on a loaded disk that dominated the run time)
+	if st, err := os.Stat("/dev/shm"); err == nil && st.IsDir() {
+		if d, err := os.MkdirTemp("/dev/shm", "vh-c17-"); err == nil {
+			workDir = filepath.Join(d, "work")
+			defer os.RemoveAll(d)
+		}
+	}
 	dist := emit.NewDistinct()
 	savedLocal := time.Local
 	runOne := func(id int, corr bool) {
 		r := root.Fork(uint64(id))
 		mode := "none"
-		if id >= cutBase {
+		if id >= cutBase && id < sizeBase {
 			mode = cutMode
 		}
 		c := gen(r, id, mode)
@@ -596,6 +674,9 @@ func main() {
 	}
 	for j := 0; j < nCutMon; j++ {
 		runOne(cutBase+j, j < nCutCorr)
+	}
+	for j := 0; j < nSizeMon; j++ {
+		runOne(sizeBase+j, j < nSizeCorr)
 	}
 	time.Local = savedLocal
 	os.RemoveAll(workDir)
